@@ -1335,4 +1335,42 @@ example : 0 ≤ (bayes (⟨1/2⟩ : RQ rnd8) ⟨1/3⟩ ⟨5/7⟩).val ∧ (bayes
 example : (posteriorError ({ bins := [⟨1⟩, ⟨1/2⟩, ⟨1/8⟩], minScore := ⟨0⟩, scoreStep := ⟨1⟩ } : Estimator (RQ rnd8))
     ⟨11/6⟩).map (·.val) = some (1/4) := by decide +kernel
 
+/-! ## no hidden state -/
+
+/-- **C14.posteriorError_history_free** — in a session of queries on any estimators, the answer to a
+    query is `posterior_error` of ITS estimator and ITS score, whatever was asked (of whichever
+    estimator) before or after. (Trivial for the model, which is a function; stated because the
+    correspondence op `kdeseq` compares the implementation with exactly this.) -/
+theorem posteriorError_history_free (pre post : List (Estimator Rat × Rat)) (e : Estimator Rat) (s : Rat) :
+    (runQueries (pre ++ (e, s) :: post))[pre.length]? = some (posteriorError e s) := by
+  unfold runQueries
+  simp
+
+/-- the same (estimator, score) gets the same answer wherever it occurs in a session -/
+theorem runQueries_same (steps : List (Estimator Rat × Rat)) (i j : Nat) (p : Estimator Rat × Rat)
+    (hi : steps[i]? = some p) (hj : steps[j]? = some p) :
+    (runQueries steps)[i]? = (runQueries steps)[j]? := by
+  unfold runQueries
+  simp [List.getElem?_map, hi, hj]
+
+/-- the seeded defect as a counter-model: a one-entry memo of the last `(score, answer)`, keyed by the
+    score only (not by the estimator) -/
+def runMemo : Option (Rat × Option Rat) → List (Estimator Rat × Rat) → List (Option Rat)
+  | _, [] => []
+  | memo, (e, s) :: rest =>
+    match memo with
+    | some (k, v) =>
+      if k = s then v :: runMemo memo rest
+      else let r := posteriorError e s; r :: runMemo (some (s, r)) rest
+    | none => let r := posteriorError e s; r :: runMemo (some (s, r)) rest
+
+/-- **C14.memo_not_history_free** — non-vacuity of the statement above: the memo variant answers a query
+    on a second estimator with the first estimator's value when the score repeats (two estimators with
+    grids `1, 0` and `0, 0`, score 0: the session's answers are `1, 0`, the memo's `1, 1`). -/
+theorem memo_not_history_free :
+    let a : Estimator Rat := { bins := [1, 0], minScore := 0, scoreStep := 1 }
+    let b : Estimator Rat := { bins := [0, 0], minScore := 0, scoreStep := 1 }
+    runQueries [(a, 0), (b, 0)] = [some 1, some 0] ∧ runMemo none [(a, 0), (b, 0)] = [some 1, some 1] := by
+  decide +kernel
+
 end Sage.C14
